@@ -238,6 +238,7 @@ func (m *MonLateSets) Finish(nw *Network) {
 		}
 		r1, r2 = os[0].rr, os[1].rr
 		if os[1].lastRound >= 0 {
+			nw.Res.count(fmt.Sprintf("second_change_commit_lag_%d_rounds", minInt(os[1].lastRound-os[1].rr, 9)), 1)
 			if os[1].lastRound < lo {
 				lo = os[1].lastRound
 			}
